@@ -27,7 +27,10 @@ SHARDS = {"quick": 1, "thorough": 16}
 VERSIONS = ["1", "1.0", "1.9", "1.10", "1.10.0", "2", "0.9.9", "10.0", "1.2.3.4", "1.2.3.4.5.6", "1.2.3.4.5.10", "1.100000000000000000000", "1.99999999999999999999",
             "0.0.0.0.0.1", "2024.10.3",
             # pre-releases, development builds and post-releases take their place in the version order too
-            "2.0rc1", "1.0.dev3", "3.0a2", "2.9.post1", "1.10b2", "2.0rc1.post1", "10.0.dev1"]
+            "2.0rc1", "1.0.dev3", "3.0a2", "2.9.post1", "1.10b2", "2.0rc1.post1", "10.0.dev1",
+            # local version labels order after the same public version (numeric segments numerically), and a pre-release with a
+            # label is still a pre-release
+            "2+cdn", "2.0rc1+vendored", "1.10+build.5", "1.10+build.10", "1.0+abc", "1.0+5", "10.0.dev1+x"]
 NAMES = ["alpha", "beta", "gamma", "delta"]
 CASE_NAMES = ["alpha", "Alpha", "ALPHA", "stra\u00dfe", "strasse", "STRASSE", "made-as-alpha"]   # distinct names: nothing folds them together
 
